@@ -6,21 +6,26 @@ S1  TLC checks Outlier.tla exhaustively (per-node three-state breakers, known se
 S2  scenarios: (a) one per transition of a bounded instance of the same spec, (b) TLC random simulation of a larger
     instance, (c) seeded random per-node success/failure histories over 1..12 (some up to 100) nodes, every
     percentage k/10, 1/3, k/100, all three strategies, retry timeouts, probe numbers, active recovery on / off.
-    thorough adds (d) hand-shaped scenarios for the recycle clause that wait for the library's REAL time.AfterFunc.
+    (d) the same families over TWO or THREE resources that share the slot chain - and with it the pooled entry contexts in
+    which the answer lists live - plus a directed family "quiet after ejection": something was reported earlier, now no
+    node rejects and none is probed, the next requests (same and other resource, contexts rotating) must be told nothing.
+    (e) hand-shaped scenarios for the recycle clause that wait for the library's REAL time.AfterFunc.
 S3  harness/cmd/c20 drives the real code: a slot chain built like the micro/kratos adapters build it
     (api.BuildDefaultSlotChain + outlier.DefaultSlot + outlier.DefaultMetricStatSlot), api.Entry, FilterNodes() /
     HalfOpenNodes(), api.TraceCallee / TraceError, Exit, virtual clock at hx.BaseMs + t.
 S4  Outlier_Trace.tla (TLC) replays every operation on the abstract state and judges every recorded answer.
 """
-import json, os
+import concurrent.futures, json, os
 import vlib
 from vlib import main, write_ndjson, read_ndjson, MachineryError
 
+CHUNK = 150      # scenarios per driver process
 PCTS = [[0, 1], [1, 10], [3, 10], [1, 3], [1, 2], [7, 10], [1, 1]]
-PROPS = 'PFilter PCap PHalf PRecycle PKept PKnown'
+PROPS = 'PFilter PCap PHalf PQuiet POwn PRecycle PKept PKnown PIsolated'
 
 
-def mc_cfg(nodes, pct, rules, actives, maxt, maxreq, maxin, mut='none', gen=False, sym=True, steps='{1, 2}', pre=False):
+def mc_cfg(nodes, pct, rules, actives, maxt, maxreq, maxin, mut='none', gen=False, sym=True, steps='{1, 2}', pre=False, nres=1, pooled=False,
+           props=PROPS):
     if isinstance(nodes, int) and sym and not gen:
         nodeline = '  Nodes = {%s}\n' % ', '.join('n%d' % i for i in range(1, nodes + 1))
         symline = 'SYMMETRY NodeSym\n'
@@ -39,10 +44,12 @@ def mc_cfg(nodes, pct, rules, actives, maxt, maxreq, maxin, mut='none', gen=Fals
   MaxInflight = %d
   Mut = "%s"
   Pre = %s
+  NRes = %d
+  Pooled = %s
 %sVIEW view
 %sCHECK_DEADLOCK FALSE
-""" % (nodes, ', '.join(map(str, pct)), ', '.join(map(str, rules)), ', '.join(actives), steps, maxt, maxreq, maxin, mut, 'TRUE' if pre else 'FALSE', symline,
-       '' if gen else 'INVARIANT TypeOK\nPROPERTIES %s\n' % PROPS)
+""" % (nodes, ', '.join(map(str, pct)), ', '.join(map(str, rules)), ', '.join(actives), steps, maxt, maxreq, maxin, mut, 'TRUE' if pre else 'FALSE', nres,
+       'TRUE' if pooled else 'FALSE', symline, '' if gen else 'INVARIANT TypeOK\nPROPERTIES %s\n' % props)
 
 
 # ------------------------------------------------------------------------------------------- scenarios
@@ -68,7 +75,10 @@ def decorate(hist, tr, unit):
     for o in hist:
         o = dict(o)
         if o['op'] == 'new':
+            nres = o.get('nres', 1)
             o = dict(op='new', tr=tr, rule=scale_rule(o['rule'], unit), pct=o['pct'], active=o['active'])
+            if nres > 1:     # the design model gives every resource the same configuration
+                o['more'] = [dict(rule=o['rule'], pct=o['pct'], active=o['active']) for _ in range(nres - 1)]
         elif o['op'] == 'tick':
             o['d'] = o['d'] * unit
         out.append(o)
@@ -93,8 +103,12 @@ def random_rule(rng):
                 maxRt=rng.choice([10, 100]), probeNum=probe)
 
 
+RAND_PCTS = PCTS + [[k, 10] for k in range(1, 10)] + [[2, 3], [1, 4], [3, 4], [1, 5], [29, 100], [57, 100]]
+
+
 def random_scenarios(c, n, first_tr, big=False):
-    """per-node success/failure histories in virtual time"""
+    """per-node success/failure histories in virtual time; about half of the small scenarios use two or three resources
+    (own rule / percentage / recovery mode, overlapping callee addresses) on the shared slot chain"""
     rng = c.rng
     out = []
     for i in range(n):
@@ -104,18 +118,34 @@ def random_scenarios(c, n, first_tr, big=False):
             pct = rng.choice([[k, 100] for k in (1, 7, 14, 29, 33, 57, 58, 70, 99)] + PCTS)
         else:
             nn = rng.randint(1, 12)
-            pct = rng.choice(PCTS + [[k, 10] for k in range(1, 10)] + [[2, 3], [1, 4], [3, 4], [1, 5], [29, 100], [57, 100]])
+            pct = rng.choice(RAND_PCTS)
         rule = random_rule(rng)
         if big and i == 0:
             # fixed probe of the float rounding: float64(0.29) * 100 = 28.999999999999996 -> the code ejects 28 of 100, floor is 29
             nn, pct, rule = 100, [29, 100], dict(strategy='ecount', thr=[1, 1], minAmt=1, timeout=3000, I=1000, nb=1, maxRt=0, probeNum=0)
         nodes = ['n%d' % k for k in range(1, nn + 1)]
-        flaky = {x: rng.choice([0.0, 0.0, 0.3, 0.9, 1.0, 1.0]) for x in nodes}   # failure probability per node
+        nres = 1 if big else rng.choice([1, 1, 2, 2, 3])
+        cfgs = [dict(rule=rule, pct=pct, active=rng.random() < 0.35)]
+        for _ in range(nres - 1):
+            same = rng.random() < 0.5
+            cfgs.append(dict(rule=rule if same else random_rule(rng), pct=pct if rng.random() < 0.5 else rng.choice(RAND_PCTS),
+                             active=cfgs[0]['active'] if same else rng.random() < 0.35))
+        # resource k talks to a subset of the addresses (resource 1 to all of them)
+        rnodes = {1: nodes}
+        for k in range(2, nres + 1):
+            rnodes[k] = rng.sample(nodes, rng.randint(1, len(nodes)))
+        flaky = {(k, x): rng.choice([0.0, 0.0, 0.3, 0.9, 1.0, 1.0]) for k in rnodes for x in rnodes[k]}   # failure probability
+        if nres > 1 and rng.random() < 0.5:
+            for x in rnodes[nres]:
+                flaky[(nres, x)] = 0.0           # a resource whose callees never fail: it must never be told anything
         if big:
-            flaky = {x: rng.choice([0.0, 1.0, 1.0]) for x in nodes}
+            flaky = {(1, x): rng.choice([0.0, 1.0, 1.0]) for x in nodes}
         if big and i == 0:
-            flaky = {x: 1.0 for x in nodes}
-        s = [dict(op='new', tr=tr, rule=rule, pct=pct, active=rng.random() < 0.35), dict(op='tick', d=rng.choice([1, 7, 250, 999]))]
+            flaky = {(1, x): 1.0 for x in nodes}
+        new = dict(op='new', tr=tr, rule=rule, pct=pct, active=cfgs[0]['active'])
+        if nres > 1:
+            new['more'] = cfgs[1:]
+        s = [new, dict(op='tick', d=rng.choice([1, 7, 250, 999]))]
         if big and i == 0:
             for x in nodes:
                 s += [dict(op='req', id=1), dict(op='done', id=1, node=x, err=True)]
@@ -123,28 +153,112 @@ def random_scenarios(c, n, first_tr, big=False):
             out.append(s)
             continue
         free = [1, 2, 3]
-        open_ = {}    # id -> None
+        open_ = {}    # id -> resource
         steps = rng.randint(15, 60) if not big else nn * rule['thr'][0] * 2 + 20
-        warm = list(nodes)
-        rng.shuffle(warm)
+        warm = {k: list(rnodes[k]) for k in rnodes}
+        for k in warm:
+            rng.shuffle(warm[k])
         for _ in range(steps):
             x = rng.random()
             if open_ and (x < 0.45 or not free):
                 rid = rng.choice(sorted(open_))
-                node = warm.pop() if warm and rng.random() < 0.7 else rng.choice(nodes)
-                if rule['strategy'] == 'slow' and rng.random() < flaky[node]:
-                    s.append(dict(op='tick', d=rule['maxRt'] + rng.choice([1, 5])))
-                s.append(dict(op='done', id=rid, node=node, err=rng.random() < flaky[node]))
+                k = open_[rid]
+                rl = cfgs[k - 1]['rule']
+                if nres > 1 and rng.random() < 0.08:
+                    s.append(dict(op='leave', id=rid))
+                else:
+                    node = warm[k].pop() if warm[k] and rng.random() < 0.7 else rng.choice(rnodes[k])
+                    if rl['strategy'] == 'slow' and rng.random() < flaky[(k, node)]:
+                        s.append(dict(op='tick', d=rl['maxRt'] + rng.choice([1, 5])))
+                    s.append(dict(op='done', id=rid, node=node, err=rng.random() < flaky[(k, node)]))
                 del open_[rid]
                 free.append(rid)
             elif free and x < 0.85:
                 rid = free.pop(0)
-                open_[rid] = None
-                s.append(dict(op='req', id=rid))
+                k = rng.randint(1, nres)
+                open_[rid] = k
+                s.append(dict(op='req', id=rid, res=k) if nres > 1 else dict(op='req', id=rid))
             else:
-                T, I = rule['timeout'], rule['I']
+                rl = cfgs[rng.randint(1, nres) - 1]['rule']
+                T, I = rl['timeout'], rl['I']
                 s.append(dict(op='tick', d=rng.choice([1, 10, T - 1, T, T + 1, I, I // 2 + 1, 2 * T, rng.randint(1, 2 * T)])))
         s.append(dict(op='req', id=9))
+        for k in range(2, nres + 1):
+            s.append(dict(op='obs', res=k))
+        out.append(s)
+    return out
+
+
+def quiet_scenarios(c, n, first_tr):
+    """directed family: nodes of resource 1 are ejected and reported, they recover (retry timeout, probes succeed), and then
+    NOTHING rejects and nothing is probed: every later request - of resource 1 and of a healthy second resource that knows
+    the same addresses - must be told two empty lists, whichever pooled context it draws (entries held open rotate them)"""
+    rng = c.rng
+    out = []
+    for i in range(n):
+        tr = first_tr + i
+        T = rng.choice([1000, 3000, 500])
+        probe = rng.choice([0, 0, 1, 2, 3])
+        thr = rng.choice([1, 1, 2])
+        rule = dict(strategy='ecount', thr=[thr, 1], minAmt=1, timeout=T, I=rng.choice([1000, 10000]), nb=rng.choice([1, 2]), maxRt=0, probeNum=probe)
+        if rng.random() < 0.25:
+            rule.update(strategy='eratio', thr=[1, 2], minAmt=thr)
+        active = rng.random() < 0.4
+        nn = rng.randint(1, 5)
+        nodes = ['n%d' % k for k in range(1, nn + 1)]
+        pct = rng.choice([[1, 1], [1, 1], [1, 2], [7, 10], [1, 3]])
+        two = rng.random() < 0.7
+        new = dict(op='new', tr=tr, rule=rule, pct=pct, active=active)
+        if two:
+            new['more'] = [dict(rule=rule if rng.random() < 0.6 else random_rule(rng), pct=rng.choice([[1, 1], pct]),
+                                active=active if rng.random() < 0.7 else not active)]
+        s = [new, dict(op='tick', d=rng.choice([1, 250, 999]))]
+        held = []          # entries held open so that the contexts rotate
+
+        def call(res, node=None, err=False, rid=1):
+            s.append(dict(op='req', id=rid, res=res) if two else dict(op='req', id=rid))
+            if node is None:
+                s.append(dict(op='leave', id=rid))
+            else:
+                s.append(dict(op='done', id=rid, node=node, err=err))
+
+        def look():
+            """requests of every resource, some while another entry is open"""
+            for res in ([1, 2] if two else [1]):
+                k = rng.random()
+                if k < 0.3 and not held:
+                    s.append(dict(op='req', id=7, res=res) if two else dict(op='req', id=7))
+                    held.append(7)
+                elif k < 0.6:
+                    s.append(dict(op='obs', res=res) if two else dict(op='obs'))
+                else:
+                    call(res, rng.choice(nodes), False, rid=2)
+                if held and rng.random() < 0.5:
+                    s.append(dict(op='leave', id=held.pop()))
+
+        if rng.random() < 0.6:       # every address known and healthy, for both resources
+            for res in ([1, 2] if two else [1]):
+                for x in nodes:
+                    call(res, x)
+        bad = rng.sample(nodes, rng.randint(1, nn))
+        for x in bad:
+            for _ in range(thr * (2 if rule['strategy'] == 'eratio' else 1)):
+                call(1, x, True)
+        look()
+        look()
+        s.append(dict(op='tick', d=rng.choice([T, T + 1, T - 1, 2 * T])))
+        look()
+        # every ejected node completes successfully until its breaker closed (probe numbers up to 3)
+        for _ in range(max(probe, 1) + 1):
+            for x in bad:
+                call(1, x)
+                if rng.random() < 0.3:
+                    look()
+        for _ in range(rng.randint(2, 4)):
+            look()
+        while held:
+            s.append(dict(op='leave', id=held.pop()))
+        look()
         out.append(s)
     return out
 
@@ -229,20 +343,56 @@ def recycle_scenarios(c, first_tr):
 
 
 # ------------------------------------------------------------------------------------------- drive + validate
-def run_and_validate(c, drv, scns, tag, timeout=600, retries=0):
+def run_and_validate(c, drv, scns, tag, timeout=600, retries=0, partial=False):
+    """drive + judge.  Returns (mismatches, trace path, driver error).  partial=True (timer scenarios): a driver that gives
+    up (exit 2: a wait timed out, unsafe timing) is not the end - whatever it recorded until then is still judged by the
+    trace spec, and the error is handed back to the caller, so that a forbidden answer in the recorded part becomes a
+    violation and the machinery failure never hides it."""
     sp = os.path.join(c.scratch, tag + '.scn.ndjson')
     tp = os.path.join(c.scratch, tag + '.trace.ndjson')
-    write_ndjson(sp, [o for s in scns for o in s])
-    for attempt in range(retries + 1):
-        try:
-            c.run([drv, sp, tp], timeout=timeout)
-            break
-        except MachineryError as e:
-            if attempt < retries and 'timing unsafe' in str(e):
-                c.log('%s: driver reported unsafe timing, retrying (%d)' % (tag, attempt + 1))
-                continue
-            raise
-    nlines = sum(1 for _ in open(tp))
+    err = None
+    if len(scns) > CHUNK:
+        # several driver processes (rules of finished scenarios stay loaded: a long run makes the heap - and the two garbage
+        # collections per scenario that empty the context pool - grow); the traces are judged as one file
+        parts = [scns[i:i + CHUNK] for i in range(0, len(scns), CHUNK)]
+
+        def drive(k):
+            spk, tpk = '%s.%d' % (sp, k), '%s.%d' % (tp, k)
+            write_ndjson(spk, [o for s in parts[k] for o in s])
+            c.run([drv, spk, tpk], timeout=timeout)
+            return open(tpk).read()
+        with concurrent.futures.ThreadPoolExecutor(max_workers=6) as ex:
+            texts = list(ex.map(drive, range(len(parts))))
+        open(tp, 'w').write(''.join(texts))
+    else:
+        write_ndjson(sp, [o for s in scns for o in s])
+        for attempt in range(retries + 1):
+            try:
+                c.run([drv, sp, tp], timeout=timeout)
+                err = None
+                break
+            except MachineryError as e:
+                if attempt < retries and 'timing unsafe' in str(e):
+                    c.log('%s: driver reported unsafe timing, retrying (%d)' % (tag, attempt + 1))
+                    continue
+                if not partial or not os.path.exists(tp):
+                    raise
+                err = e
+                break
+    lines = [l for l in open(tp).read().splitlines() if l.strip()]
+    if err is not None:
+        good = []
+        for l in lines:       # keep the well-formed prefix
+            try:
+                json.loads(l)
+            except ValueError:
+                break
+            good.append(l)
+        lines = good
+        open(tp, 'w').write(''.join(l + '\n' for l in lines))
+        if not lines:
+            raise err
+    nlines = len(lines)
     mism, consumed, r = c.validate('Outlier_Trace', tp, nlines)
     if consumed != nlines:
         raise MachineryError('%s: trace validation consumed %d of %d lines (malformed trace?)\n%s' % (tag, consumed, nlines, r.out[-1500:]))
@@ -250,26 +400,34 @@ def run_and_validate(c, drv, scns, tag, timeout=600, retries=0):
     c.cov['conformance_mismatches'] += len(drift)
     c.cov['traces_validated_against_impl'] += len(scns)
     c.cov['evaluations'] += nlines
-    c.log('S3/S4 %s: %d scenarios, %d events validated in %.0fs, %d mismatching traces, %d non-maximal filter answers (drift)' % (
-        tag, len(scns), nlines, r.wall, len(mism), len(drift)))
+    c.log('S3/S4 %s: %d scenarios, %d events validated in %.0fs, %d mismatching traces, %d non-maximal filter answers (drift)%s' % (
+        tag, len(scns), nlines, r.wall, len(mism), len(drift), '' if err is None else ' [driver gave up: partial trace]'))
+    run_and_validate.drift = {int(json.loads(l).split(' ')[1]) for l in drift}
     if mism:
-        lines = open(tp).read().splitlines()
         mism = [(tr, ln, exp + '  OBSERVED: ' + lines[ln - 1][:600]) for tr, ln, exp in mism]
-    return mism, tp
+    return mism, tp, err
 
 
-def binding_selftest(c, tp, want_n=40):
-    """corrupt one recorded answer in each of the first traces of a good trace file: every one must be rejected"""
+def binding_selftest(c, tp, want_n=40, drift=()):
+    """corrupt one recorded answer in each of the first traces of a good trace file: every one must be rejected.
+    One corruption is the left-over of a pooled context: a request that was (rightly) told nothing reports the lists an
+    EARLIER request of the same trace (any resource) was told."""
     traces = split(read_ndjson(tp))
-    out, want = [], set()
+    out, want, nstale = [], set(), 0
     for t in traces:
         if len(want) >= want_n:
             break
-        cands = [e for e in t if e['op'] == 'req' and (e['half'] or e['filter'])] + [e for e in t if e['op'] == 'recycle' and e['visible']]
+        asks = [e for e in t if e['op'] in ('req', 'obs')]
+        cands = [e for e in asks if e['half'] or e['filter']] + [e for e in t if e['op'] == 'recycle' and e['visible']]
         if not cands:
             continue
         e = c.rng.choice(cands)
-        if e['op'] == 'recycle':
+        later = [x for x in asks[asks.index(e) + 1:] if not x['filter'] and not x['half']] if e in asks else []
+        if later and t[0]['tr'] not in drift and c.rng.random() < 0.6:
+            q = c.rng.choice(later)                                  # stale lists of an earlier entry
+            q['filter'], q['half'] = list(e['filter']), list(e['half'])
+            nstale += 1
+        elif e['op'] == 'recycle':
             e['visible'] = e['visible'] + ['never-seen']           # a node nobody knows shows up
         elif e['half'] and (not e['filter'] or c.rng.random() < 0.5):
             e['half'] = e['half'][1:]                                # a probed node is not reported
@@ -287,8 +445,9 @@ def binding_selftest(c, tp, want_n=40):
     got = {m[0] for m in mism}
     if got != want:
         raise MachineryError('binding self-test failed: corrupted traces %s, rejected %s' % (sorted(want), sorted(got)))
-    c.cov['binding_selftest'] = c.cov.get('binding_selftest', '') + '%d corrupted traces, all rejected; ' % len(want)
-    c.log('binding self-test: %d corrupted traces, all rejected by Outlier_Trace' % len(want))
+    c.cov['binding_selftest'] = c.cov.get('binding_selftest', '') + '%d corrupted traces (%d with the stale lists of an earlier entry), all rejected; ' % (len(want), nstale)
+    c.log('binding self-test: %d corrupted traces (%d = stale lists of an earlier entry), all rejected by Outlier_Trace' % (len(want), nstale))
+    return nstale
 
 
 def recycle_selftest(c, tp):
@@ -314,7 +473,19 @@ def recycle_selftest(c, tp):
 
 def nontrivial(trace):
     """a trace is non-trivial if some request answered a non-empty filter or half-open set"""
-    return any(e['op'] == 'req' and (e['filter'] or e['half']) for e in trace) or any(e['op'] == 'recycle' for e in trace)
+    return any(e['op'] in ('req', 'obs') and (e['filter'] or e['half']) for e in trace) or any(e['op'] == 'recycle' for e in trace)
+
+
+def quiet_after_report(trace):
+    """number of requests that were told nothing AFTER an earlier request of the trace had been told something"""
+    n, seen = 0, False
+    for e in trace:
+        if e['op'] in ('req', 'obs'):
+            if e['filter'] or e['half']:
+                seen = True
+            elif seen:
+                n += 1
+    return n
 
 
 def classify(c, scn, exp):
@@ -324,12 +495,13 @@ def classify(c, scn, exp):
 
 def handle_mismatches(c, drv, scns, mism, tag, **kw):
     by_tr = {s[0]['tr']: s for s in scns}
-    for tr, line, exp in mism[:4]:      # a handful per group is enough for a verdict; each is confirmed twice
+    # a handful per group is enough for a verdict (each is confirmed twice): the shortest scenarios make the best replays
+    for tr, line, exp in sorted(mism, key=lambda m: len(by_tr[m[0]]))[:4]:
         s = by_tr[tr]
         rp = c.save_replay('%s-tr%d.ndjson' % (tag, tr), s)
         ok = 0
         for i in range(2):   # confirm twice from the replay file in fresh processes
-            m2, _ = run_and_validate(c, drv, [read_ndjson(rp)], 'confirm%d' % i, **kw)
+            m2, _, _ = run_and_validate(c, drv, [read_ndjson(rp)], 'confirm%d' % i, **kw)
             ok += 1 if m2 else 0
         if ok < 2:
             c.inconclusive.append('mismatch of %s trace %d did not reproduce (%d/2)' % (tag, tr, ok))
@@ -353,13 +525,25 @@ def maximal(hs):
 
 
 def check(c, tier, replay):
+    try:
+        check_body(c, tier, replay)
+    except MachineryError as e:
+        # a machinery failure never hides what the real code was already caught doing
+        if not c.violations:
+            raise
+        c.inconclusive.append('machinery failure after violations had been found: %s' % str(e)[:600])
+
+
+def check_body(c, tier, replay):
     drv = c.build('c20')
     if replay:
         s = read_ndjson(replay)
         timers = any(o['op'] in ('wait', 'active') for o in s)
-        mism, _ = run_and_validate(c, drv, [s], 'replay', retries=2 if timers else 0)
+        mism, _, err = run_and_validate(c, drv, [s], 'replay', retries=2 if timers else 0, partial=timers)
         if mism:
             c.violation('replayed scenario: answer forbidden by the property: %s' % (mism[0][2][:500]), replay)
+        elif err is not None:
+            raise err
         c.cov['states'] = c.cov['transitions'] = 1
         c.sample(s[:8])
         return
@@ -370,7 +554,11 @@ def check(c, tier, replay):
         runs = [dict(nodes=3, pct=ALLP, rules=[1], actives=BOTH, maxt=5, maxreq=3, maxin=2, steps='{2}'),
                 dict(nodes=2, pct=[2, 4, 5, 7], rules=[2, 3, 4], actives=['FALSE'], maxt=4, maxreq=3, maxin=1),
                 # pre = start from ANY set of known nodes, any of them open: every (known, open) split of 4 nodes x every percentage
-                dict(nodes=4, pct=ALLP, rules=[1], actives=BOTH, maxt=3, maxreq=1, maxin=1, steps='{2}', pre=True)]
+                dict(nodes=4, pct=ALLP, rules=[1], actives=BOTH, maxt=3, maxreq=1, maxin=1, steps='{2}', pre=True),
+                # two resources on one chain: the answer lists live in pooled contexts that keep their content
+                dict(nodes=2, pct=[5, 7], rules=[1], actives=BOTH, maxt=5, maxreq=3, maxin=2, steps='{2}', nres=2, pooled=True),
+                # one resource, pooled contexts, long enough to eject - recover - be quiet again (two probes with rule 2)
+                dict(nodes=1, pct=[7], rules=[1, 2], actives=BOTH, maxt=7, maxreq=5, maxin=1, steps='{2}', pooled=True)]
     else:
         runs = [dict(nodes=3, pct=ALLP, rules=[1], actives=BOTH, maxt=5, maxreq=3, maxin=2),
                 dict(nodes=3, pct=[1, 4, 5, 7], rules=[1], actives=BOTH, maxt=5, maxreq=4, maxin=2, steps='{2}'),
@@ -379,7 +567,10 @@ def check(c, tier, replay):
                 dict(nodes=4, pct=ALLP, rules=[1], actives=BOTH, maxt=3, maxreq=1, maxin=1, steps='{2}', pre=True),
                 dict(nodes=3, pct=ALLP, rules=[1], actives=['FALSE'], maxt=5, maxreq=2, maxin=1, steps='{2}', pre=True),
                 dict(nodes=1, pct=[1, 5, 7], rules=[1, 2, 3, 4], actives=BOTH, maxt=6, maxreq=5, maxin=2),
-                dict(nodes=2, pct=ALLP, rules=[2, 3, 4], actives=BOTH, maxt=4, maxreq=3, maxin=2)]
+                dict(nodes=2, pct=ALLP, rules=[2, 3, 4], actives=BOTH, maxt=4, maxreq=3, maxin=2),
+                dict(nodes=2, pct=[5, 7], rules=[1], actives=BOTH, maxt=5, maxreq=4, maxin=2, steps='{2}', nres=2, pooled=True),
+                dict(nodes=1, pct=[7], rules=[1], actives=BOTH, maxt=5, maxreq=5, maxin=1, steps='{2}', nres=2, pooled=True),
+                dict(nodes=1, pct=[7], rules=[1, 2], actives=BOTH, maxt=7, maxreq=5, maxin=2, steps='{2}', pooled=True)]
     for kw in runs:
         r = c.model_check('Outlier_MC', cfg_text=mc_cfg(**kw), workers=8, timeout=1500 if thorough else 170)
         if not r.completed:
@@ -391,16 +582,26 @@ def check(c, tier, replay):
                   workers=2, timeout=170, count=False)
         if r.violated != prop:
             raise MachineryError('vacuity self-test: broken design %s should violate %s, TLC says %s %s' % (mut, prop, r.violated, r.error))
-    c.cov['spec_mutants'] = 'cap->PCap closed->PFilter half->PHalf recycle->PRecycle: all violated as required'
-    c.log('S1 vacuity: the four broken designs violate PCap / PFilter / PHalf / PRecycle')
+    # the shortcut "nothing rejects, nothing is probed: return before the lists are written" shows only through the pooled
+    # contexts: it must violate the clause about quiet requests and the clause about the own resource's nodes
+    stale = dict(nodes=2, pct=[5, 7], rules=[1], actives=BOTH, maxt=5, maxreq=4, maxin=1, steps='{2}', nres=2, pooled=True, mut='stale')
+    for prop in ('PQuiet', 'POwn'):
+        r = c.tlc('Outlier_MC', cfg_text=mc_cfg(props=prop, **stale), workers=2, timeout=170, count=False)
+        if r.violated != prop:
+            raise MachineryError('vacuity self-test: broken design stale should violate %s, TLC says %s %s' % (prop, r.violated, r.error))
+    c.cov['spec_mutants'] = ('cap->PCap closed->PFilter half->PHalf recycle->PRecycle stale(pooled contexts)->PQuiet, POwn: '
+                             'all violated as required')
+    c.log('S1 vacuity: the five broken designs violate PCap / PFilter / PHalf / PRecycle / PQuiet + POwn')
     # S2 ---------------------------------------------------------------------------------
     scns, tr = [], 0
     gens = [dict(nodes=3, pct=[4, 5], rules=[1], actives=BOTH, maxt=5, maxreq=3, maxin=1, steps='{2}'),
-            dict(nodes=2, pct=[5], rules=[2, 3, 4], actives=['FALSE'], maxt=4, maxreq=3, maxin=1)]
+            dict(nodes=2, pct=[5], rules=[2, 3, 4], actives=['FALSE'], maxt=4, maxreq=3, maxin=1),
+            dict(nodes=2, pct=[7], rules=[1], actives=BOTH, maxt=5, maxreq=3, maxin=1, steps='{2}', nres=2)]
     if thorough:
         gens = [dict(nodes=3, pct=[2, 4, 5, 7], rules=[1], actives=BOTH, maxt=5, maxreq=3, maxin=2),
                 dict(nodes=2, pct=[2, 5, 7], rules=[2, 3, 4], actives=BOTH, maxt=4, maxreq=3, maxin=2),
-                dict(nodes=4, pct=[3, 5, 6], rules=[1], actives=['FALSE'], maxt=5, maxreq=3, maxin=1, steps='{2}')]
+                dict(nodes=4, pct=[3, 5, 6], rules=[1], actives=['FALSE'], maxt=5, maxreq=3, maxin=1, steps='{2}'),
+                dict(nodes=2, pct=[5, 7], rules=[1], actives=BOTH, maxt=5, maxreq=3, maxin=2, steps='{2}', nres=2)]
     cap = 1200 if not thorough else 30000
     for kw in gens:
         r = c.tlc('Outlier_MC', cfg_text=mc_cfg(gen=True, **kw), workers=4, timeout=900 if thorough else 120, count=False)
@@ -415,29 +616,39 @@ def check(c, tier, replay):
             scns.append(decorate(hh, tr, c.rng.choice([500, 1000, 250])))
         c.log('S2 transition cover %s: %d transitions -> %d scenarios' % ({k: kw[k] for k in ('nodes', 'rules')}, len(hs), len(keep)))
     cover_n = len(scns)
-    r = c.tlc('Outlier_MC', cfg_text=mc_cfg(gen=True, nodes=5, pct=ALLP, rules=[1, 2, 3, 4], actives=BOTH, maxt=12, maxreq=12, maxin=2),
-              workers=1, timeout=300, count=False, args=['-simulate', 'num=%d' % (200 if not thorough else 3000), '-depth', '28', '-seed', str(c.seed)])
-    keep = maximal(r.json_prints())
-    for hh in keep:
-        tr += 1
-        scns.append(decorate(hh, tr, c.rng.choice([500, 1000])))
-    c.log('S2 TLC simulation (5 nodes): %d behaviours' % len(keep))
+    nsim = 200 if not thorough else 3000
+    for nres in (1, 2):
+        r = c.tlc('Outlier_MC', cfg_text=mc_cfg(gen=True, nodes=5 if nres == 1 else 3, pct=ALLP, rules=[1, 2, 3, 4], actives=BOTH, maxt=12, maxreq=12,
+                                                maxin=2, nres=nres),
+                  workers=1, timeout=300, count=False, args=['-simulate', 'num=%d' % (nsim // nres), '-depth', '28', '-seed', str(c.seed)])
+        keep = maximal(r.json_prints())
+        for hh in keep:
+            tr += 1
+            scns.append(decorate(hh, tr, c.rng.choice([500, 1000])))
+        c.log('S2 TLC simulation (%d resource(s)): %d behaviours' % (nres, len(keep)))
     nrand = 400 if not thorough else 6000
     rs = random_scenarios(c, nrand, tr + 1)
     tr += nrand
+    nquiet = 150 if not thorough else 2000
+    rq = quiet_scenarios(c, nquiet, tr + 1)
+    tr += nquiet
     nbig = 25 if not thorough else 300
     rb = random_scenarios(c, nbig, tr + 1, big=True)
     tr += nbig
     # S3 + S4 ----------------------------------------------------------------------------
     all_traces = []
-    for tag, group in (('tlc', scns), ('random', rs), ('big', rb)):
+    nstale = 0
+    for tag, group in (('tlc', scns), ('random', rs), ('quiet', rq), ('big', rb)):
         for i in range(0, len(group), 4000):
             part = group[i:i + 4000]
-            mism, tp = run_and_validate(c, drv, part, '%s%d' % (tag, i))
-            if i == 0 and not mism and tag in ('tlc', 'random'):
-                binding_selftest(c, tp)
+            mism, tp, _ = run_and_validate(c, drv, part, '%s%d' % (tag, i))
+            if i == 0 and not mism and tag in ('tlc', 'random', 'quiet'):
+                nstale += binding_selftest(c, tp, drift=run_and_validate.drift)
             all_traces += split(read_ndjson(tp))
             handle_mismatches(c, drv, part, mism, tag)
+    if nstale == 0 and not c.violations:
+        raise MachineryError('binding self-test: no request that was told nothing after an earlier one was told something - the '
+                             'stale-list corruption was never exercised')
     if True:   # (the recycle scenarios use the library's real 1 s timers: one repetition in quick, four in thorough)
         rec = []
         for rep in range(4 if thorough else 1):
@@ -445,27 +656,41 @@ def check(c, tier, replay):
             tr += 10
         # one driver process per scenario: the real-time guard of `wait' is per process start
         good = None
+        gave_up = []
         for s in rec:
-            mism, tp = run_and_validate(c, drv, [s], 'recycle%d' % s[0]['tr'], timeout=120, retries=3)
+            # partial: if the driver gives up (timeout / unsafe timing) what it recorded is still judged, and the failure is
+            # reported at the end (exit 2 only if nothing else was found)
+            mism, tp, err = run_and_validate(c, drv, [s], 'recycle%d' % s[0]['tr'], timeout=120, retries=3, partial=True)
             all_traces += split(read_ndjson(tp))
-            handle_mismatches(c, drv, [s], mism, 'recycle', timeout=120, retries=3)
-            if not mism:
+            handle_mismatches(c, drv, [s], mism, 'recycle', timeout=120, retries=3, partial=True)
+            if err is not None:
+                gave_up.append('recycle scenario %d: %s' % (s[0]['tr'], str(err).strip().splitlines()[-1][:300]))
+            elif not mism:
                 good = (good or []) + read_ndjson(tp)
         if good:
             gp = os.path.join(c.scratch, 'recycle-good.ndjson')
             write_ndjson(gp, good)
             recycle_selftest(c, gp)
+        c.inconclusive += gave_up
         c.cov['recycle_scenarios'] = len(rec)
         c.sample(rec[0])
     else:
         c.cov['recycle_scenarios'] = 0
         c.assumptions.append('quick tier: the recycle clause is model-checked on the spec only; its binding to the code (real time.AfterFunc, '
                              '1 s) runs in the thorough tier')
+    asks = [e for t in all_traces for e in t if e['op'] in ('req', 'obs')]
     c.cov['distinct_nontrivial'] = len({json.dumps(t[1:], sort_keys=True) for t in all_traces if nontrivial(t)})
-    c.cov['requests_with_nonempty_filter'] = sum(1 for t in all_traces for e in t if e['op'] == 'req' and e['filter'])
-    c.cov['requests_with_nonempty_half'] = sum(1 for t in all_traces for e in t if e['op'] == 'req' and e['half'])
+    c.cov['requests_with_nonempty_filter'] = sum(1 for e in asks if e['filter'])
+    c.cov['requests_with_nonempty_half'] = sum(1 for e in asks if e['half'])
+    c.cov['traces_with_several_resources'] = sum(1 for t in all_traces if len(t[0].get('cfgs', [])) > 1)
+    c.cov['requests_of_second_resources'] = sum(1 for e in asks if e.get('res', 1) > 1)
+    c.cov['quiet_requests_after_a_report'] = sum(quiet_after_report(t) for t in all_traces)
+    if c.cov['quiet_requests_after_a_report'] < 500 or c.cov['requests_of_second_resources'] < 500:
+        raise MachineryError('coverage guard: only %d quiet requests after a report / %d requests of second resources' % (
+            c.cov['quiet_requests_after_a_report'], c.cov['requests_of_second_resources']))
     c.cov['rule'] = ('scenarios = one per transition of a bounded Outlier spec (%d) + TLC random simulation + seeded random per-node '
-                     'histories (1..12 and 10..100 nodes); non-trivial = distinct recorded trace in which at least one request answered a '
+                     'histories (1..12 and 10..100 nodes, 1..3 resources on one chain) + directed eject-recover-quiet histories; '
+                     'non-trivial = distinct recorded trace in which at least one request answered a '
                      'non-empty filter or half-open set (or the recycle timers were awaited)' % cover_n)
     c.sample(scns[len(scns) // 2][:10])
     c.sample(rs[0][:12])
@@ -473,8 +698,10 @@ def check(c, tier, replay):
                       '(for den <= 100 the float product cannot exceed the rational floor; it can fall below it, which the statement allows and '
                       'which is counted as conformance drift)',
                       'requests are sequential (one goroutine); the breaker machine under concurrency is the subject of C12',
+                      'the pool of entry contexts is emptied (two garbage collections) at the start of every scenario, so that scenarios and '
+                      'replay files are self-contained; which pooled context an entry draws inside a scenario is the runtime\'s choice',
                       'active recovery in the quick tier never reports a node healthy (the check function is ours); a healthy answer and '
-                      'the recycle timers are exercised in the thorough tier with real timers and condition polling',
+                      'the recycle timers are exercised with real timers and condition polling',
                       'TLC model checking is exhaustive only for the bounded instances listed in tlc_runs']
 
 
